@@ -23,10 +23,16 @@ theorem loop_any {α : Type} (l : List α) (p : α → Bool)
   · intro x s; rw [h]; split <;> simp_all
 
 theorem Range_satisfies (r : Range) (v : Version) : Range.rs_satisfies r v = Range.satisfies r v := by
-  unfold Range.satisfies Range.rs_satisfies
-  rw [loop_any r (fun x => x.rs_satisfies v) _ (by intros; rfl)]
-  simp only [id_run, id_bind, id_pure, BoundSet_satisfies]
-  cases List.any r (fun x => x.satisfies v) <;> rfl
+  first
+  | -- written as a loop with an early return
+    (unfold Range.satisfies Range.rs_satisfies
+     rw [loop_any r (fun x => x.rs_satisfies v) _ (by intros; rfl)]
+     simp only [id_run, id_bind, id_pure, BoundSet_satisfies]
+     cases List.any r (fun x => x.satisfies v) <;> rfl)
+  | -- written with `Iterator::any`
+    (have hp : (fun x => BoundSet.rs_satisfies x v) = (fun x => x.satisfies v) := by
+       funext x; exact BoundSet_satisfies x v
+     simp [Range.rs_satisfies, Range.satisfies, Rust.iter_any, hp])
 
 /-- the shape shared by `allows_all` and `allows_any`: two nested loops that return `true` at the first
 pair.  `k` is what the outer body does with the inner loop's result (given by its two cases, so that the
@@ -54,18 +60,26 @@ theorem nested_any (a b : Range) (p : BoundSet → BoundSet → Bool)
   exact loop_any a (fun x => List.any b (fun y => p x y)) body hb
 
 theorem Range_allows_all (a b : Range) : Range.rs_allows_all a b = Range.allowsAll a b := by
-  unfold Range.allowsAll Range.rs_allows_all
-  rw [nested_any a b (fun x y => x.rs_allows_all y) _ _ _ (by intros; rfl) (by intros; rfl) (by intros; rfl)
-    (by intros; rfl)]
-  simp only [id_run, id_bind, id_pure, BoundSet_allows_all]
-  cases List.any a (fun x => List.any b (fun y => x.allowsAll y)) <;> rfl
+  first
+  | (unfold Range.allowsAll Range.rs_allows_all
+     rw [nested_any a b (fun x y => x.rs_allows_all y) _ _ _ (by intros; rfl) (by intros; rfl) (by intros; rfl)
+       (by intros; rfl)]
+     simp only [id_run, id_bind, id_pure, BoundSet_allows_all]
+     cases List.any a (fun x => List.any b (fun y => x.allowsAll y)) <;> rfl)
+  | (have hp : (fun x y => BoundSet.rs_allows_all x y) = (fun x y => x.allowsAll y) := by
+       funext x y; exact BoundSet_allows_all x y
+     simp [Range.rs_allows_all, Range.allowsAll, Rust.iter_any, hp])
 
 theorem Range_allows_any (a b : Range) : Range.rs_allows_any a b = Range.allowsAny a b := by
-  unfold Range.allowsAny Range.rs_allows_any
-  rw [nested_any a b (fun x y => x.rs_allows_any y) _ _ _ (by intros; rfl) (by intros; rfl) (by intros; rfl)
-    (by intros; rfl)]
-  simp only [id_run, id_bind, id_pure, BoundSet_allows_any]
-  cases List.any a (fun x => List.any b (fun y => x.allowsAny y)) <;> rfl
+  first
+  | (unfold Range.allowsAny Range.rs_allows_any
+     rw [nested_any a b (fun x y => x.rs_allows_any y) _ _ _ (by intros; rfl) (by intros; rfl) (by intros; rfl)
+       (by intros; rfl)]
+     simp only [id_run, id_bind, id_pure, BoundSet_allows_any]
+     cases List.any a (fun x => List.any b (fun y => x.allowsAny y)) <;> rfl)
+  | (have hp : (fun x y => BoundSet.rs_allows_any x y) = (fun x y => x.allowsAny y) := by
+       funext x y; exact BoundSet_allows_any x y
+     simp [Range.rs_allows_any, Range.allowsAny, Rust.iter_any, hp])
 
 /-! ### intersect -/
 
